@@ -48,7 +48,10 @@ type stubStream struct {
 	// breakOnSendErr: once a Send has failed the stream is broken, as a gRPC stream is: Recv
 	// returns the error too
 	breakOnSendErr bool
-	broken         chan struct{}
+	// recvLag: how long after the failed Send the receive side learns of it (the send side of a
+	// gRPC stream can notice a failure first)
+	recvLag time.Duration
+	broken  chan struct{}
 	brokenOnce     sync.Once
 	sendFailed     atomic.Bool
 	recvReturnsErr atomic.Bool
@@ -90,6 +93,12 @@ func (s *stubStream) Recv() (*spb.ModifyResponse, error) {
 		}
 		return it.resp, it.err
 	case <-s.broken:
+		if s.recvLag > 0 {
+			select {
+			case <-time.After(s.recvLag):
+			case <-s.ctx.Done():
+			}
+		}
 		s.recvReturnsErr.Store(true)
 		return nil, s.sendErr
 	case <-s.closed:
